@@ -58,10 +58,10 @@ def canonical_key(version_string):
         components[-1] = components[-1][:-1]
     # Components that begin with a "0" are compared as the decimals of a float:
     # their trailing zeros are not significant.
-    # The first component is compared as an integer: its leading zeros are not.
+    # The first component and the other components are compared as integers:
+    # neither their leading zeros nor the digit characters they are written with are.
     components = [
-        (c.lstrip("0") or "0") if i == 0 else c.rstrip("0") if c.startswith("0") else c
-        for i, c in enumerate(components)
+        c.rstrip("0") if i and c.startswith("0") else int(c) for i, c in enumerate(components)
     ]
     suffixes = [
         (match.group(1), int("0" + match.group(2)))
